@@ -20,12 +20,12 @@ claim("C04", "other",
       "Not decided: per-instruction totals at every beam position (composition of C03 traces with the delay table). The statement's '(T-T0) mod 8' is read per picture line (the ULA fetch cycle restarts each line; identical on the 48K, differs on the 128K where 228 is not a multiple of 8).",
       "DESIGN.md §3 C04")
 claim("C05", "other",
-      "constant propagation + tabulated summary of int_active + mod-ref (writers/readers/callers) + path post-conditions of wait_internal",
-      "Frame length and INT window constants; int_active == (T mod frame < 32) for every clock of two frames; the frame clock is only advanced by wait_internal and reduced by exactly one frame length in new_frame (overrun carried); frame counter discipline.",
+      "constant propagation + tabulated summary of int_active + mod-ref (writers/readers/callers) + path post-conditions of wait_internal; SZX Z80R chunk-arm rule for the restored frame clock (shared with C14)",
+      "Frame length and INT window constants; int_active == (T mod frame < 32) for every clock of two frames; the frame clock is only advanced by wait_internal and reduced by exactly one frame length in new_frame (overrun carried); frame counter discipline. The only writer of the frame clock outside the bus methods (SZX Z80R) stores the file's 32-bit clock.",
       "Not decided: exactly one interrupt per frame (depends on the program).",
       "DESIGN.md §3 C05")
 claim("C06", "proof",
-      "path-sensitive abstract interpretation (guards, bit provenance of the paging value, address arithmetic by term equivalence) + mod-ref / who-may-reach over the resolved call graph, stated over the API surface (public Emulator methods and the CPU bus implementation)",
+      "path-sensitive abstract interpretation (guards, bit provenance of the paging value, address arithmetic by term equivalence) + mod-ref / who-may-reach over the resolved call graph, stated over the API surface (public Emulator methods and the CPU bus implementation); the poke path (force_write) under the same index rule as read/write",
       "write_7ffd guard and bit fields, initial maps and constructor model choice, ZXMemory::read/write address arithmetic and ROM write protection, and the sets of API entry points from which the memory map, ROM vector, RAM vector and paging latch can be written.",
       "Trusted: rustc MIR, mirfacts, zxwalk, finite-domain term equivalence. The 48K machine ignoring paging writes is decided by C07 (machine guard in write_io) plus the constructor's paging_enabled = false.",
       "DESIGN.md §3 C06")
@@ -55,8 +55,8 @@ claim("C11", "proof",
       "Equivalence of real-time loading with fast loading (whole program) is not claimed.",
       "DESIGN.md §3 C11")
 claim("C12", "other",
-      "algebraic laws checked on composed method summaries (stop, play, rewind, end-of-tape path) over all 8x8 state/saved-state combinations; mod-ref of stop/play; mod set of the deck commands over the call graph",
-      "stop;stop==stop, stop;play resumes exactly, play;play==play, end of tape and rewind-while-stopped forget the saved state, stop/play touch only the two state fields, API forwards. play/stop/rewind through the API change nothing outside the deck and the asset behind it.",
+      "algebraic laws checked on composed method summaries (stop, play, rewind, end-of-tape path) over all 8x8 state/saved-state combinations; mod-ref of stop/play; mod set of the deck commands over the call graph; inertness of a stopped deck under passing time",
+      "stop;stop==stop, stop;play resumes exactly, play;play==play, end of tape and rewind-while-stopped forget the saved state, stop/play touch only the two state fields, API forwards. play/stop/rewind through the API change nothing outside the deck and the asset behind it. Time passing on a stopped deck changes nothing of it.",
       "Not decided: that the concatenated waveform decodes to the blocks (C11 + data).",
       "DESIGN.md §3 C12")
 claim("C17", "other",
@@ -80,8 +80,8 @@ claim("C20", "other",
       "Not decided: the total sample count (no induction over play's loop).",
       "DESIGN.md §3 C20")
 claim("C16", "other",
-      "intraprocedural taint of stopwatch readings; mod-ref isolation of sound-generation state over the resolved call graph; who-may-call on LoadableAsset::read; path-sensitive check of read_exact; per-step effect pairing of emulate_frames (events taken from the controller are acted upon before the step ends); absence scan with a positive control; mod set of the slicing controls (set_speed / set_sound / next_audio_sample) over the call graph",
-      "Stopwatch readings reach only the limit comparison and EmulationInfo.duration; no field written by sound generation is read outside its call closure; AY port-visible registers are not written by generation; read() only behind read_exact/adapters and read_exact tolerates short reads; a breakpoint stop never drops another event taken in the same step (stop-and-resume transparency); no nondeterministic API outside the host stopwatch. The slicing controls change only their own bookkeeping (no device object is written or re-created by them).",
+      "intraprocedural taint of stopwatch readings; mod-ref isolation of sound-generation state over the resolved call graph; who-may-call on LoadableAsset::read; path-sensitive check of read_exact; per-step effect pairing of emulate_frames (events taken from the controller are acted upon before the step ends); absence scan with a positive control; mod set of the slicing controls (set_speed / set_sound / next_audio_sample) over the call graph; callers of the clock-advancing bus methods",
+      "Stopwatch readings reach only the limit comparison and EmulationInfo.duration; no field written by sound generation is read outside its call closure; AY port-visible registers are not written by generation; read() only behind read_exact/adapters and read_exact tolerates short reads; a breakpoint stop never drops another event taken in the same step (stop-and-resume transparency); no nondeterministic API outside the host stopwatch. The slicing controls change only their own bookkeeping (no device object is written or re-created by them). Emulated time advances only from the CPU core and the controller (never from the host-facing driver loop).",
       "Not decided: bit-identical audio under different drain patterns (excluded by the statement). The call graph over-approximates unresolved trait calls with generic Self.",
       "DESIGN.md §3 C16")
 claim("C13", "other",
